@@ -158,6 +158,23 @@ theorem C15_header_first (o : ROpts) (v : View) :
   · intro h; unfold fixedBlock; simp [h]
   · intro h; unfold fixedBlock logical; simp [h]
 
+/-- **--info=inline-right**: the counter sits at the right end of the prompt row (one margin cell
+    after it) and the prompt and the query are at its start — so an action that repaints the prompt
+    row must paint both; with the separator the row below is the separator row and the list begins
+    after it, without it the list begins right after the prompt row. -/
+theorem C15_inline_right (o : ROpts) (input : Str) (found total nsel : Nat) (hinfo : o.info = .inlineRight)
+    (hp : o.prompt.length ≤ o.W - 2)
+    (hroom : o.prompt.length + input.length + 1 + (infoText o found total nsel).length + 3 ≤ o.W) :
+    ((promptRow o input found total nsel).drop (o.W - (infoText o found total nsel).length - 1)).take
+        (infoText o found total nsel).length = infoText o found total nsel ∧
+    (promptRow o input found total nsel).take (o.prompt.length + input.length) = o.prompt ++ input ∧
+    (o.inputless = false → promptLines o = if o.separator then 2 else 1) := by
+  obtain ⟨h1, h2⟩ := promptRow_inlineRight o input found total nsel hinfo hp hroom
+  refine ⟨h1, h2, fun hi => ?_⟩
+  unfold promptLines noSepLine
+  simp only [hi, hinfo]
+  cases o.separator <;> simp
+
 /- Non-vacuity: a concrete screen. -/
 example :
     let o : ROpts := { W := 12, H := 5, layout := .default, info := .default, separator := true, pointer := [62], marker := [42],
